@@ -4,5 +4,5 @@ D=$1; P=$2; shift 2
 cd /repo && git diff --quiet || { echo "repo dirty"; exit 2; }
 git apply "$D" 2>/dev/null || git apply --3way "$D" 2>/dev/null || { git reset -q --hard HEAD; echo "patch does not apply"; exit 2; }
 git reset -q 2>/dev/null
-cd /verif && timeout 1500 bin/check $P "$@" 2>&1 | grep -E "^VIOLATION|^KNOWN|^HARNESS|^INCONCL|^  part|^$P|violated clause" | cut -c1-400
+cd /verif && VERIF_SCRATCH=1 timeout 1500 bin/check $P "$@" 2>&1 | grep -E "^VIOLATION|^KNOWN|^HARNESS|^INCONCL|^  part|^$P|violated clause" | cut -c1-400
 cd /repo && git checkout -q -- . && git status --short | head -3
